@@ -505,9 +505,10 @@ func repoGarbageCollect(repo Repo, conf config.Config, index types.Index, locked
 				continue
 			}
 		}
-		// if there are referrers to this manifest
+		// if there are referrers to this manifest, queue the response once
 		if referrer, ok := subjects[d.Digest]; ok {
 			manifests = append(manifests, referrer)
+			delete(subjects, d.Digest)
 		}
 	}
 	// clean old blobs that were not seen
